@@ -16,6 +16,16 @@
         -> mask_scatter_pointwise (a pointwise kernel scattered through the mask IS the pointwise
            scatter), scatter_pointwise (score = score1 model item; sub-lists, concatenation,
            permutation), mult_first_equiv (the implicit bridge's dot-then-select = select-then-dot)
+   * "... the input items ... one score per item" for a list in ANY representation: identifiers, item numbers
+     against its own vocabulary (the scorer's or another: a full catalogue, a filtered subset), both, with or
+     without filled caches, after pickle / data-frame / Arrow round trips and copies (which keep identifiers and
+     numbers but not the vocabulary)
+        -> any_representation_resolves_ids (the numbers a scorer obtains through
+           `items.numbers(vocabulary=self.items)` are the numbers of the list's IDENTIFIERS in the scorer's
+           vocabulary, for the rule of the foreign-vocabulary branch REGENERATED from data/items.py),
+           scorer_numbers_are_entry_numbers (... which is where mask_scatter starts), resolves_ok_spec (the
+           check of the correspondence runs is sound and complete), bare_numbers_rule_misaligns (the theorem is
+           false for the other rule: handing out stored numbers of a list without vocabulary)
    * the metamorphic checks evaluated on every observed call
         -> checks_inhabited (scatter output passes them), checks_sound (answers passing the exact
            checks are explained by one score function of the item identifier)
@@ -29,7 +39,7 @@
    (Model/C04_scatter.v `kept_ok`, part of the correspondence term `call_kept_ok`), the remaining
    fields, storage types, raw buffers and the candidate list by the harness (one flag per call). *)
 From Coq Require Import ZArith QArith List Bool Permutation.
-From LK Require Import Lib.QLib Model.C04_scatter Gen.C04_sites Proofs.C04_proofs.
+From LK Require Import Lib.QLib Model.C04_scatter Model.C04_repr Gen.C04_sites Gen.C04_numbers Proofs.C04_proofs Proofs.C04_repr.
 Import ListNotations.
 Open Scope Q_scope.
 
@@ -102,6 +112,42 @@ Theorem checks_sound : forall (base other : obs) (cands' : list Z),
   Forall2 (fun i s => opt_eq s (score_fun base i)) cands' (map snd other).
 Proof. exact checks_sound_l. Qed.
 Print Assumptions checks_sound.
+
+(* any representation, any journey: the rule in force is the generated constant `foreign_rule_in_source` *)
+Theorem any_representation_resolves_ids : forall v il ids steps,
+  wf il -> tags_name_objects v il -> ids_of il = Some ids ->
+  numbers_in foreign_rule_in_source v (travelled steps il) = Some (map (number (v_keys v)) ids) /\
+  ids_of (travelled steps il) = Some ids.
+Proof. exact any_representation_resolves_ids_l. Qed.
+Print Assumptions any_representation_resolves_ids.
+
+Theorem scorer_numbers_are_entry_numbers : forall (F : Type) v il steps (items : list (entry F)),
+  wf il -> tags_name_objects v il -> ids_of il = Some (map fst items) ->
+  numbers_in foreign_rule_in_source v (travelled steps il) = Some (numbers (v_keys v) items).
+Proof. intros F. exact (@scorer_numbers_are_entry_numbers_l F). Qed.
+Print Assumptions scorer_numbers_are_entry_numbers.
+
+Theorem resolves_ok_spec : forall v il ids steps observed,
+  wf il -> tags_name_objects v il -> ids_of il = Some ids ->
+  (resolves_ok foreign_rule_in_source v il steps observed = true <-> observed = map (number (v_keys v)) ids).
+Proof. exact resolves_ok_spec_l. Qed.
+Print Assumptions resolves_ok_spec.
+
+(* sensitivity + non-vacuity: a list built by identifier against a catalogue, numbers cached, pickled, scored by a
+   model that numbers the items differently -- resolved correctly by the rule in force, misresolved by the other *)
+Example bare_numbers_rule_misaligns :
+  let catalogue := {| v_tag := 1; v_keys := [10; 11; 12; 13] |}%Z in
+  let model := {| v_tag := 2; v_keys := [11; 13] |}%Z in
+  let il := {| il_ids := Some [13; 10; 11]%Z; il_nums := None; il_vocab := Some catalogue |} in
+  let journey := [SWarm WarmNumbers; STransport TPickle] in
+  wf il /\ tags_name_objects model il /\
+  numbers_in foreign_rule_in_source model (travelled journey il) = Some [Some 1%nat; None; Some 0%nat] /\
+  numbers_in BareNumbersAsGiven model (travelled journey il) = Some [Some 3%nat; Some 0%nat; Some 1%nat].
+Proof.
+  cbv zeta. split; [|split; [|split; vm_compute; reflexivity]].
+  - cbn. split; [|exact I]. repeat constructor; cbn; intuition discriminate.
+  - intros w E. injection E as <-. cbn. discriminate.
+Qed.
 
 (* non-vacuity: a list with an unknown item and extra fields, scored through the mask *)
 Example c04_nonvacuous :
